@@ -35,14 +35,91 @@ def instruction_comment(rng):
             s = ' '.join(ws)
     return s
 
+REGS = ['A', 'B', 'C', 'BC', 'DE', 'HL', 'IX', 'A\'', 'HL\'', 'SP']
+
+def paragraph(rng):
+    """Block-level text (D/N/E/R): no word consisting only of dots - wrapping could leave it alone on a line, and a
+    line holding only a dot is the paragraph separator in both file syntaxes."""
+    ws = [w for w in sentence(rng, 2, 16).split(' ') if set(w) - {'.'}]
+    return ' '.join(ws) or 'text'
+
+
+def _emit(rng, lay, d, addr, text):
+    """One D/N/E/R directive, sometimes in the dot-continuation form (line breaks preserved)."""
+    L = lay.lines
+    if getattr(lay, 'allow_dots', False) and rng.random() < 0.35:
+        ws = text.split(' ')
+        k = max(1, len(ws) // 2)
+        L.append('%s %d' % (d, addr))
+        L.append('. ' + ' '.join(ws[:k]))
+        if ws[k:]:
+            L.append('. ' + ' '.join(ws[k:]))
+        lay.features.add('dot-directive')
+    else:
+        L.append('%s %d %s' % (d, addr, text))
+
 def entry_header_pre(rng, lay, addr, ctl):
-    pass
+    L = lay.lines
+    if rng.random() < 0.15:
+        for _ in range(rng.randint(1, 2)):
+            L.append('> %d ; %s' % (addr, sentence(rng, 1, 8)))
+        lay.features.add('header-block')
+    if rng.random() < 0.2:
+        L.append('@ %d label=L%d' % (addr, addr))
+        lay.features.add('asm-label')
+    if rng.random() < 0.08:
+        L.append('@ %d defb=%d:1,2' % (addr, addr)) if False else None
 
 def entry_header_post(rng, lay, addr, ctl):
-    pass
+    L = lay.lines
+    if rng.random() < 0.4:
+        if rng.random() < 0.2:
+            L.append('@ %d ignoreua:d' % addr)
+            lay.features.add('ignoreua:d')
+        for _ in range(rng.randint(1, 2)):
+            _emit(rng, lay, 'D', addr, paragraph(rng))
+        lay.features.add('D')
+    if rng.random() < 0.3:
+        if rng.random() < 0.2:
+            L.append('@ %d ignoreua:r' % addr)
+            lay.features.add('ignoreua:r')
+        for _ in range(rng.randint(1, 3)):
+            reg = rng.choice(REGS)
+            pre = rng.choice(['', '', 'I:', 'O:', 'Input:'])
+            L.append('R %d %s%s %s' % (addr, pre, reg, paragraph(rng)))
+        lay.features.add('R')
+    if rng.random() < 0.3:
+        if rng.random() < 0.2:
+            L.append('@ %d ignoreua:m' % addr)
+            lay.features.add('ignoreua:m')
+        for _ in range(rng.randint(1, 2)):
+            _emit(rng, lay, 'N', addr, paragraph(rng))
+        lay.features.add('N-start')
 
 def entry_footer(rng, lay, start, end, ctl):
-    pass
+    L = lay.lines
+    if rng.random() < 0.3:
+        if rng.random() < 0.2:
+            L.append('@ %d ignoreua:e' % start)
+            lay.features.add('ignoreua:e')
+        for _ in range(rng.randint(1, 2)):
+            _emit(rng, lay, 'E', start, paragraph(rng))
+        lay.features.add('E')
 
 def subblock_extras(rng, lay, start, end, sctl):
-    pass
+    L = lay.lines
+    r = rng.random()
+    if r < 0.08:
+        L.append('@ %d label=S%d' % (start, start))
+        lay.features.add('asm-label')
+    elif r < 0.12:
+        L.append('@ %d keep' % start)
+        lay.features.add('asm-keep')
+    elif r < 0.15:
+        L.append('@ %d nowarn' % start)
+        lay.features.add('asm-nowarn')
+
+def mid_block_comment(rng, lay, addr):
+    for _ in range(rng.randint(1, 2)):
+        _emit(rng, lay, 'N', addr, paragraph(rng))
+    lay.features.add('N-mid')
